@@ -15,6 +15,7 @@
 //   -m     mmap a file (prot: r, rx, rw, n) at file offset off
 //   -F     open N extra descriptors
 //   -d     synthetic linker data: PHDR array -> PT_DYNAMIC -> DT_DEBUG -> r_debug -> N link_maps
+//   -w     K:SP  blocked thread K waits with stack pointer SP (0, all-ones, unmapped, …)
 //   -g     install a counting handler for SIGRTMIN+1 (per-thread counters in the shared page)
 //
 // Prints one JSON line describing itself, then "ready".
@@ -42,12 +43,13 @@ struct vt_regs {            // offsets are used by the assembly below
   uint64_t adj;                                          // 72
   uint64_t rsp_out, rip_out;                             // 80, 88
   uint64_t ready;                                        // 96
-  uint64_t pad;                                          // 104
+  uint64_t sp_forced;                                    // 104: adj holds the stack pointer to run with
   uint8_t xmm[16][16];                                   // 112
   double st0, st1;                                       // 368, 376
   uint64_t counter;                                      // 384  (spin threads)
 };
 
+extern ElfW(Dyn) _DYNAMIC[];
 void vt_block(struct vt_regs *r, long fd, void *buf);
 void vt_spin(struct vt_regs *r);
 
@@ -56,7 +58,13 @@ __asm__(
     ".globl vt_block\n"
     "vt_block:\n"
     "  mov %rdi, %r11\n"
+    "  cmpq $0, 104(%r11)\n"
+    "  jne 3f\n"
     "  sub 72(%r11), %rsp\n"
+    "  jmp 4f\n"
+    "3:\n"
+    "  mov 72(%r11), %rsp\n"       // forced stack pointer (nothing below uses the stack)
+    "4:\n"
     "  movdqu 112(%r11), %xmm0\n  movdqu 128(%r11), %xmm1\n  movdqu 144(%r11), %xmm2\n  movdqu 160(%r11), %xmm3\n"
     "  movdqu 176(%r11), %xmm4\n  movdqu 192(%r11), %xmm5\n  movdqu 208(%r11), %xmm6\n  movdqu 224(%r11), %xmm7\n"
     "  movdqu 240(%r11), %xmm8\n  movdqu 256(%r11), %xmm9\n  movdqu 272(%r11), %xmm10\n movdqu 288(%r11), %xmm11\n"
@@ -98,6 +106,8 @@ static char names[MAXT][64];
 static int name_len[MAXT];
 static uint64_t stack_lo[MAXT], stack_hi[MAXT];
 static int is_spin[MAXT];
+static int forced[MAXT];
+static uint64_t forced_sp[MAXT];
 
 static int unhex(const char *s, char *out) {
   int n = 0;
@@ -163,7 +173,7 @@ int main(int argc, char **argv) {
   memset(sh, 0, sizeof *sh);
 
   int c;
-  while ((c = getopt(argc, argv, "t:s:n:o:S:r:m:F:d:g")) != -1) {
+  while ((c = getopt(argc, argv, "t:s:n:o:S:r:m:F:d:gw:")) != -1) {
     switch (c) {
       case 't': nblock = atoi(optarg); break;
       case 's': nspin = atoi(optarg); break;
@@ -174,6 +184,12 @@ int main(int argc, char **argv) {
         break;
       }
       case 'o': adj = strtoull(optarg, NULL, 0); break;
+      case 'w': {   // K:VALUE  blocked thread K waits with this stack pointer
+        int idx = atoi(optarg);
+        const char *p = strchr(optarg, ':');
+        if (p && idx < MAXT) { forced[idx] = 1; forced_sp[idx] = strtoull(p + 1, NULL, 0); }
+        break;
+      }
       case 'S': stack_size = strtoull(optarg, NULL, 0); break;
       case 'r': {
         uint64_t len = strtoull(optarg, NULL, 0);
@@ -286,6 +302,7 @@ int main(int argc, char **argv) {
     if (pipe(sh->pipes[i]) != 0) return 3;
     fill_regs(i);
     sh->regs[i].adj = adj;
+    if (forced[i]) { sh->regs[i].sp_forced = 1; sh->regs[i].adj = forced_sp[i]; }
     is_spin[i] = i > nblock;
   }
   for (int i = 1; i < nthreads_total; i++) {
@@ -335,6 +352,17 @@ int main(int argc, char **argv) {
   for (int i = 0; i < ndso; i++)
     printf("%s{\"l_addr\":%llu,\"l_ld\":%llu,\"name\":\"%s\"}", i ? "," : "", (unsigned long long)lms[i].l_addr,
            (unsigned long long)(uintptr_t)lms[i].l_ld, lnames[i]);
+  printf("]},\"real_dso\":{\"dyn\":%llu,\"version\":%d,\"brk\":%llu,\"ldbase\":%llu,\"maps\":[", (unsigned long long)(uintptr_t)_DYNAMIC,
+         _r_debug.r_version, (unsigned long long)_r_debug.r_brk, (unsigned long long)_r_debug.r_ldbase);
+  {
+    int first = 1;
+    for (struct link_map *m = _r_debug.r_map; m; m = m->l_next) {
+      printf("%s{\"l_addr\":%llu,\"l_ld\":%llu,\"name_hex\":\"", first ? "" : ",", (unsigned long long)m->l_addr, (unsigned long long)(uintptr_t)m->l_ld);
+      for (const char *c = m->l_name ? m->l_name : ""; *c; c++) printf("%02x", (unsigned char)*c);
+      printf("\"}");
+      first = 0;
+    }
+  }
   printf("]}}\nready\n");
   fflush(stdout);
   (void)extra_fds;
